@@ -168,6 +168,10 @@ func runC10(e *Env) {
 			e.R.Check(ok && n >= 2, "C10.R3", "udp/server.Server.getOrCreateConn:stored-under-own-key", e.fpos(f), "the new connection is inserted, and removed on close, under getConnKey(raddr, laddr) of this call's own addresses", "a peer connection is stored under a key other than getConnKey(raddr, laddr) of its own addresses (e.g. the wildcard fallback key): the local address drops out of the connection identity")
 		}
 	}
+	if e.want("C10.R8") {
+		e.R.Rule("C10.R8", "paths", "a listener reports 'closed' (which ends the accept loop) only when its closed flag is set", 3)
+		c10ClosedOnlyWhenClosed(e)
+	}
 	if e.want("C10.R7") {
 		e.R.Rule("C10.R7", "callgraph", "monitor state is per connection (one peer's missed pings never count against another)", 1)
 		checkKeepAlivePerConn(e, "C10.R7")
@@ -545,4 +549,41 @@ func fieldOfLoaded(v ssa.Value) (string, string, bool) {
 		return "", "", false
 	}
 	return core.FieldOf(ld.X)
+}
+
+// c10ClosedOnlyWhenClosed: the accept loops stop for good when AcceptWithContext returns ErrListenerIsClosed. That sentinel may
+// therefore be produced only on the `closed.Load() == true` edge; a transient Accept error (descriptor shortage caused by
+// connect-and-stall peers) must not be turned into it.
+func c10ClosedOnlyWhenClosed(e *Env) {
+	rule := "C10.R8"
+	for _, q := range []string{"net.TCPListener.AcceptWithContext", "net.TLSListener.AcceptWithContext", "net.DTLSListener.AcceptWithContext"} {
+		f := e.fn(rule, q)
+		if f == nil {
+			continue
+		}
+		bad := ""
+		n := 0
+		core.Instrs(f, func(in ssa.Instruction) {
+			ld, ok := in.(*ssa.UnOp)
+			if !ok || ld.Op != token.MUL {
+				return
+			}
+			g, isG := ld.X.(*ssa.Global)
+			if !isG || g.Name() != "ErrListenerIsClosed" {
+				return
+			}
+			n++
+			if _, guarded := core.GuardedBy(ld, func(cond ssa.Value) core.CondMatch {
+				if c, isC := cond.(*ssa.Call); isC && strings.HasSuffix(core.CalleeName(c), ".Load") {
+					if _, fl, isF := core.FieldOf(core.Arg(c, 0)); isF && fl == "closed" {
+						return core.CondMatch{Match: true, Branch: true}
+					}
+				}
+				return core.CondMatch{}
+			}); !guarded {
+				bad = "ErrListenerIsClosed is produced at " + e.pos(ld) + " without the closed flag being set: an Accept error of the open listener stops the server"
+			}
+		})
+		e.R.Check(bad == "", rule, q+":closed-only-when-closed", e.fpos(f), fmt.Sprintf("%d use(s) of the closed sentinel, each on the closed.Load() edge", n), bad)
+	}
 }
